@@ -617,6 +617,19 @@ def call_native_method(I, obj, name, args, kwargs):
     args = [concretize(I, a) if isinstance(a, SymChoice) else a for a in args]
     if not isinstance(obj, Sym) and is_plain(obj) and all(is_plain(a) for a in args) and not kwargs:
         return call_native_method(I, obj, name, args, kwargs)
+    if isinstance(obj, list) and name == "sort" and not args and set(kwargs) <= {"key", "reverse"}:
+        # list.sort(key=f): the key function runs once per element, in order (it may raise -- that is the part modelled);
+        # the reordering itself is done by CPython when every key is a concrete value, otherwise it is not modelled
+        kf = kwargs.get("key")
+        keys = [I.call(kf, [x], {}) if kf is not None else x for x in obj]
+        if all(is_plain(k) for k in keys):
+            try:
+                order = sorted(range(len(obj)), key=lambda i: keys[i], reverse=bool(kwargs.get("reverse", False)))
+            except NATIVE_EXC as e:
+                reraise_native(I, e)
+            obj[:] = [obj[i] for i in order]
+            return None
+        raise Unsupported("list.sort with symbolic keys")
     key = (_kind(obj), name)
     m = _METHODS.get(key)
     if m is None:
@@ -1528,6 +1541,37 @@ class GList(Sym):
                         return None
             self.items.append((g, v))
             return None
+        if name == "sort" and not args and set(kw) <= {"key", "reverse"}:
+            # sorting commutes with leaving elements out: sort the ENTRIES (guards travel with them).  The key function runs
+            # on every entry under that entry's guard -- an exception it raises is real iff the element is present.
+            kf = kw.get("key")
+            keys = []
+            for g, x in self.items:
+                if kf is None:
+                    keys.append(x)
+                    continue
+                if g is True:
+                    keys.append(I.call(kf, [x], {}))
+                    continue
+                I.guard_stack.append(g)
+                try:
+                    try:
+                        keys.append(I.call(kf, [x], {}))
+                    finally:
+                        I.guard_stack.pop()
+                except PyRaise:
+                    if I.decide(g, "guarded-sort-key-raises"):
+                        raise
+                    keys.append(None)
+            live = [i for i in range(len(keys)) if keys[i] is not None or kf is None]
+            if not all(is_plain(keys[i]) for i in live):
+                raise Unsupported("sort of a guarded list with symbolic keys")
+            try:
+                order = sorted(live, key=lambda i: keys[i], reverse=bool(kw.get("reverse", False)))
+            except NATIVE_EXC as e:
+                reraise_native(I, e)
+            self.items = [self.items[i] for i in order]
+            return None
         return call_native_method(I, self.sym_iter(I), name, args, kw)
 
 
@@ -1650,6 +1694,19 @@ def finish_enum(I, cls):
             continue
         if isinstance(v, tuple):
             pass
+        # CPython: a name whose value equals an earlier member's value is an ALIAS of that member (same object, not
+        # listed when iterating the enum)
+        alias = None
+        for m0 in members.values():
+            try:
+                if type(m0.attrs["value"]) is type(v) and m0.attrs["value"] == v:
+                    alias = m0
+                    break
+            except Exception:
+                pass
+        if alias is not None:
+            cls.ns[k] = alias
+            continue
         m = Instance(cls)
         m.attrs["name"] = k
         m.attrs["value"] = v
@@ -1988,6 +2045,9 @@ def make_stub_modules(I):
     for n in ["wait", "gather", "create_task", "get_running_loop", "wait_for", "get_event_loop", "run", "ensure_future"]:
         m.ns[n] = NativeFn("asyncio." + n, _unmodelled("asyncio." + n))
     m.ns["current_task"] = NativeFn("asyncio.current_task", lambda I_, a, k: Opaque("logging.task"))
+    ise = ClassObj("InvalidStateError", [B["Exception"]], {}, m, "asyncio.InvalidStateError")
+    ise.is_exc = True
+    m.ns["InvalidStateError"] = ise
     q = mod("asyncio.queues")
     Q = ClassObj("Queue", [B["object"]], {}, q, "asyncio.Queue")
 
@@ -2081,6 +2141,14 @@ def make_stub_modules(I):
             v = it.items[it.i % len(it.items)]
             it.i += 1
             return v
+        if isinstance(it, GList):
+            # generator expression with a symbolic filter (evaluated eagerly into a guarded list): the first PRESENT element
+            for g, x in it.items:
+                if g is True or I_.decide(g, "next-of-guarded"):
+                    return x
+            if len(args) > 1:
+                return args[1]
+            I_.raise_("StopIteration")
         if isinstance(it, list):
             # result of a generator expression (evaluated eagerly): consume from the front
             if it:
